@@ -969,6 +969,8 @@ cdef class CPUDomainManager(DomainManagerBase):
 
         for pa_wrapper in pa_wrappers:
             h = pa_wrapper.h
+            if h.length == 0:
+                continue
             h.update_min_max()
 
             _hmax = h.maximum
@@ -977,6 +979,10 @@ cdef class CPUDomainManager(DomainManagerBase):
                 hmax = _hmax
             if _hmin < hmin:
                 hmin = _hmin
+
+        if hmax < 0:
+            # no particles at all
+            hmax = hmin = 0.0
 
         cell_size = self.radius_scale * hmax
         self.hmin = self.radius_scale * hmin
@@ -1537,11 +1543,17 @@ cdef class NNPS(NNPSBase):
         cdef double xmax = -1e100, ymax = -1e100, zmax = -1e100
         cdef double xmin = 1e100, ymin = 1e100, zmin = 1e100
         cdef double lx, ly, lz, domain_size
+        cdef bint found = False
 
         for pa_wrapper in pa_wrappers:
             x = pa_wrapper.x
             y = pa_wrapper.y
             z = pa_wrapper.z
+
+            # an empty array has no extent (its min/max are reported as 0)
+            if x.length == 0:
+                continue
+            found = True
 
             # find min and max of variables
             x.update_min_max()
@@ -1555,6 +1567,10 @@ cdef class NNPS(NNPSBase):
             xmin = fmin(x.minimum, xmin)
             ymin = fmin(y.minimum, ymin)
             zmin = fmin(z.minimum, zmin)
+
+        if not found:
+            xmin = ymin = zmin = 0.0
+            xmax = ymax = zmax = 0.0
 
         # Add a small offset to the limits.
         lx, ly, lz = xmax - xmin, ymax - ymin, zmax - zmin
